@@ -344,4 +344,108 @@ pub proof fn lemma_members_are_keys(h: &Heap, x: Ptr, m: Map<Link, usize>, order
     }
 }
 
+// ---- L.c08: the bookkeeping invariant I2 (every record is visible from both ends with the same
+// multiplicity) is inductive over the contracts of adopt / unadopt (U3) and of the purge done by a dying
+// object (U6), stated here as functions on the view `Ptr -> table`.
+pub type Tables = Map<Ptr, Map<Link, usize>>;
+
+pub open spec fn sym_counts(t: Tables) -> bool {
+    forall|a: Ptr, b: Ptr| t.contains_key(a) && t.contains_key(b) ==> #[trigger] cnt(t[a], fl(b)) == #[trigger] cnt(t[b], bl(a))
+}
+
+pub open spec fn bump(m: Map<Link, usize>, k: Link) -> Map<Link, usize> {
+    m.insert(k, (cnt(m, k) + 1) as usize)
+}
+
+/// saturating removal of one unit, deleting the entry at zero (the contract of `Links::remove(k, 1)`)
+pub open spec fn unbump(m: Map<Link, usize>, k: Link) -> Map<Link, usize> {
+    if cnt(m, k) > 1 { m.insert(k, (cnt(m, k) - 1) as usize) } else { m.remove(k) }
+}
+
+/// U3's contract for `adopt_unchecked(this = a, other = b)` through two different handles
+pub open spec fn adopt_spec(t: Tables, a: Ptr, b: Ptr) -> Tables {
+    let t1 = t.insert(a, bump(t[a], fl(b)));
+    t1.insert(b, bump(t1[b], bl(a)))
+}
+
+pub open spec fn unadopt_spec(t: Tables, a: Ptr, b: Ptr) -> Tables {
+    let t1 = t.insert(a, unbump(t[a], fl(b)));
+    t1.insert(b, unbump(t1[b], bl(a)))
+}
+
+/// U6's contract for the zero-count teardown of x: x's table is gone, every peer loses exactly its records of x
+pub open spec fn purge_spec(t: Tables, x: Ptr) -> Tables {
+    Map::new(t.dom().remove(x), |p: Ptr| t[p].remove(fl(x)).remove(bl(x)))
+}
+
+pub proof fn lemma_cnt_bump(m: Map<Link, usize>, k: Link, j: Link)
+    requires cnt(m, k) < usize::MAX,
+    ensures cnt(bump(m, k), j) == (if j == k { cnt(m, k) + 1 } else { cnt(m, j) }),
+{
+}
+
+pub proof fn lemma_cnt_unbump(m: Map<Link, usize>, k: Link, j: Link)
+    ensures cnt(unbump(m, k), j) == (if j == k { if cnt(m, k) >= 1 { (cnt(m, k) - 1) as nat } else { 0 } } else { cnt(m, j) }),
+{
+}
+
+pub proof fn lemma_adopt_preserves_symmetry(t: Tables, a: Ptr, b: Ptr)
+    requires sym_counts(t), t.contains_key(a), t.contains_key(b), cnt(t[a], fl(b)) < usize::MAX,
+    ensures sym_counts(adopt_spec(t, a, b)),
+{
+    let t1 = t.insert(a, bump(t[a], fl(b)));
+    let t2 = adopt_spec(t, a, b);
+    assert(cnt(t[b], bl(a)) == cnt(t[a], fl(b)));
+    assert forall|p: Ptr, q: Ptr| t2.contains_key(p) && t2.contains_key(q) implies #[trigger] cnt(t2[p], fl(q)) == #[trigger] cnt(t2[q], bl(p)) by {
+        assert(t.contains_key(p) && t.contains_key(q));
+        assert(cnt(t[p], fl(q)) == cnt(t[q], bl(p)));
+        // kinds differ, so bumping a Forward key never changes a Backward count and vice versa
+        assert(fl(q) != bl(a) && bl(p) != fl(b));
+        lemma_cnt_bump(t[a], fl(b), fl(q));
+        lemma_cnt_bump(t[a], fl(b), bl(p));
+        lemma_cnt_bump(t1[b], bl(a), fl(q));
+        lemma_cnt_bump(t1[b], bl(a), bl(p));
+        if fl(q) == fl(b) { assert(q == b); }
+        if bl(p) == bl(a) { assert(p == a); }
+    }
+}
+
+pub proof fn lemma_unadopt_preserves_symmetry(t: Tables, a: Ptr, b: Ptr)
+    requires sym_counts(t), t.contains_key(a), t.contains_key(b),
+    ensures sym_counts(unadopt_spec(t, a, b)),
+{
+    let t1 = t.insert(a, unbump(t[a], fl(b)));
+    let t2 = unadopt_spec(t, a, b);
+    assert(cnt(t[b], bl(a)) == cnt(t[a], fl(b)));
+    assert forall|p: Ptr, q: Ptr| t2.contains_key(p) && t2.contains_key(q) implies #[trigger] cnt(t2[p], fl(q)) == #[trigger] cnt(t2[q], bl(p)) by {
+        assert(t.contains_key(p) && t.contains_key(q));
+        assert(cnt(t[p], fl(q)) == cnt(t[q], bl(p)));
+        assert(fl(q) != bl(a) && bl(p) != fl(b));
+        lemma_cnt_unbump(t[a], fl(b), fl(q));
+        lemma_cnt_unbump(t[a], fl(b), bl(p));
+        lemma_cnt_unbump(t1[b], bl(a), fl(q));
+        lemma_cnt_unbump(t1[b], bl(a), bl(p));
+        if fl(q) == fl(b) { assert(q == b); }
+        if bl(p) == bl(a) { assert(p == a); }
+    }
+}
+
+/// after the purge no table names the destroyed object, and I2 still holds for the rest of the heap
+pub proof fn lemma_purge_preserves_symmetry(t: Tables, x: Ptr)
+    requires sym_counts(t), t.contains_key(x),
+    ensures
+        sym_counts(purge_spec(t, x)),
+        !purge_spec(t, x).contains_key(x),
+        forall|p: Ptr| purge_spec(t, x).contains_key(p) ==> !(#[trigger] purge_spec(t, x)[p]).contains_key(fl(x)) && !purge_spec(t, x)[p].contains_key(bl(x)),
+{
+    let t2 = purge_spec(t, x);
+    assert forall|p: Ptr, q: Ptr| t2.contains_key(p) && t2.contains_key(q) implies #[trigger] cnt(t2[p], fl(q)) == #[trigger] cnt(t2[q], bl(p)) by {
+        assert(cnt(t[p], fl(q)) == cnt(t[q], bl(p)));
+        assert(fl(q) != fl(x) && fl(q) != bl(x) && bl(p) != bl(x) && bl(p) != fl(x)) by {
+            if fl(q) == fl(x) { assert(q == x); }
+            if bl(p) == bl(x) { assert(p == x); }
+        }
+    }
+}
+
 } // verus!
